@@ -4,11 +4,12 @@ use jiff::{civil::DateTime, fmt::strtime, tz, Timestamp};
 
 /// Convert a UNIX epoch timestamp with optional fractions.
 fn epoch_to_timestamp<V: ValT>(v: &V) -> Result<Timestamp, Error<V>> {
-    let val = match v.as_isize() {
-        Some(i) => i as i64 * 1000000,
-        None => (v.try_as_f64()? * 1000000.0) as i64,
-    };
-    Timestamp::from_microsecond(val).map_err(Error::str)
+    match v.as_isize() {
+        // do not scale integers to microseconds, because this may overflow
+        Some(i) => Timestamp::from_second(i as i64),
+        None => Timestamp::from_microsecond((v.try_as_f64()? * 1000000.0) as i64),
+    }
+    .map_err(Error::str)
 }
 
 /// Convert a date-time pair to a UNIX epoch timestamp.
